@@ -20,6 +20,14 @@ func isLockCall(name string) bool {
 
 func (ex *Exec) execCall(st *State, in *ssa.Call) {
 	rs := ex.execCommon(st, in.Common(), in, in.Pos(), false)
+	if ex.con != nil && ex.con.Observe != nil {
+		if callee := in.Common().StaticCallee(); callee != nil && len(rs) > 0 {
+			if v, ok := ex.con.Observe[callee.Name()]; ok {
+				st.ghost["obs:"+v] = rs[0]
+				ex.obsSeen[v] = true
+			}
+		}
+	}
 	sig := in.Common().Signature()
 	switch sig.Results().Len() {
 	case 0:
@@ -374,6 +382,13 @@ func (ex *Exec) callByContract(st *State, callee *ssa.Function, con *Contract, a
 		}
 		// a lock already held by the caller is re-entrant nonsense; not checked here
 		ex.acquireMonitor(st, n.Obj().Name()+"."+sel.Sel.Name, x.t, pt.Elem())
+	}
+	for cn, v := range con.Observe {
+		var srt Sort = SBool
+		if f := ex.P.calleeByShortName(callee, cn); f != nil && f.Signature.Results().Len() > 0 {
+			srt = vc.sortOf(f.Signature.Results().At(0).Type())
+		}
+		bind["$obs:"+v] = TV{vc.fresh("obs."+v, srt), nil}
 	}
 	pre := st.clone()
 	env := &SpecEnv{ex: ex, st: st, old: pre, vars: bind, calleeFn: callee, isPrePost: true}
